@@ -111,9 +111,9 @@ def plans(ctx, m):
     ctxfeat = {"r.pull", "r.pull.path", "r.pull.auth_token", "r.deliver", "pull_api", "pull_api.auth_token"}   # occupied by the base contexts
     if ctx.quick:
         P.append(dict(name="val-pull", nv=3, w=6, consts=consts(m, Scope=set(m.ids) - m.under("r.deliver") - {"r.deliver_concurrency"},
-                                                            VC1=allvc, VC2={"bare", "blank", "kwq", "ph_env"})))
+                                                            VC1=allvc, VC2={"bare", "blank", "kwq", "ph_env", "brace"})))
         P.append(dict(name="val-deliver", nv=3, w=3, consts=consts(m, Scope=deliver | m.under("pull_api"), VC1=allvc,
-                                                               VC2={"bare", "blank", "kwq", "esc"}, Bases={"deliver"})))
+                                                               VC2={"bare", "blank", "kwq", "esc", "brace"}, Bases={"deliver"})))
         P.append(dict(name="val-none", nv=2, w=2, consts=consts(m, Scope=ctxfeat, VC1=allvc, VC2=allvc2, Bases={"none"})))
         P.append(dict(name="val-vars", nv=2, w=2, consts=consts(m, VC1={"vars"}, VC2={"vars", "bare"}, Bases={"pullv", "deliverv"}, SpMode="default")))
         P.append(dict(name="pairs-route", nv=2, w=6, consts=consts(m, Scope=ingress_side, VC1={"bare", "blank"}, K=2)))
